@@ -453,6 +453,7 @@ impl Ctx {
                 ..Config::default()
             };
             let mut runner = TestRunner::new_with_rng(config, self.rng(stream, w));
+            let first_seen: RefCell<Option<Viol>> = RefCell::new(None);
             let result = runner.run(&strat, |v| {
                 if self.stop.load(Ordering::Relaxed) {
                     return Ok(());
@@ -472,6 +473,9 @@ impl Ctx {
                     Ok(())
                 } else {
                     LOCAL.with(|l| l.borrow_mut().shrinking = true);
+                    if first_seen.borrow().is_none() {
+                        *first_seen.borrow_mut() = Some(unknown[0].clone());
+                    }
                     Err(TestCaseError::fail(unknown[0].sig.clone()))
                 }
             });
@@ -489,10 +493,15 @@ impl Ctx {
                 if !any {
                     // flaky under re-execution (should not happen: cases are deterministic up to
                     // the documented SystemRandom material) - report what proptest saw
+                    let seen = first_seen.borrow().clone();
                     self.violation(Viol::new(
                         "unstable-failure",
-                        format!("case failed during generation but not on re-execution: {:?}", minimal),
-                        json!({"debug": format!("{:?}", minimal)}),
+                        format!(
+                            "case failed during generation but not on re-execution: {:?}; first failure seen: {:?}",
+                            minimal,
+                            seen.as_ref().map(|v| (&v.sig, &v.desc))
+                        ),
+                        seen.map(|v| v.case).unwrap_or_else(|| json!({"debug": format!("{:?}", minimal)})),
                     ));
                 }
                 self.stop.store(true, Ordering::Relaxed);
